@@ -43,6 +43,10 @@ def generate(repo: pathlib.Path) -> str:
     base = ast.parse((repo / SOURCES[0]).read_text())
     lt = Flatten().visit(last_return(find_method(base, "Proposal", "__lt__")))
     eq = Flatten().visit(last_return(find_method(base, "Proposal", "__eq__")))
+    # a conjunction of plain field comparisons cannot raise and has no effects: canonical (textual) order of the conjuncts
+    if isinstance(eq, ast.BoolOp) and isinstance(eq.op, ast.And) and all(
+            isinstance(v, ast.Compare) and all(isinstance(x, ast.Name) for x in [v.left] + v.comparators) for v in eq.values):
+        eq = ast.BoolOp(op=ast.And(), values=sorted(eq.values, key=ast.unparse))
     keys = "(self_priority : Int) (self_source_id : String) (other_priority : Int) (other_source_id : String)"
     out = ["import Frequenz.Model.Prelude", "", "namespace Extracted.Proposal", ""]
     dec = ("instance (self_priority : Int) (self_source_id : String) (other_priority : Int) (other_source_id : String) :\n"
@@ -52,10 +56,30 @@ def generate(repo: pathlib.Path) -> str:
     # expiry test of drop_old_proposals
     mat = ast.parse((repo / SOURCES[1]).read_text())
     drop = find_method(mat, "Matryoshka", "drop_old_proposals")
+    # the expiry test: the one condition of the method (an `if` statement or the filter of a comprehension)
     tests = [n.test for n in ast.walk(drop) if isinstance(n, ast.If)]
+    tests += [c for n in ast.walk(drop) if isinstance(n, ast.comprehension) for c in n.ifs]
     if len(tests) != 1:
-        raise py2lean.Unsupported("drop_old_proposals: expected exactly one `if`")
-    test = Flatten().visit(tests[0])
+        raise py2lean.Unsupported("drop_old_proposals: expected exactly one condition (`if` / comprehension filter)")
+    params = [a.arg for a in drop.args.args]
+    if len(params) != 2:
+        raise py2lean.Unsupported("drop_old_proposals: expected (self, <loop time>)")
+
+    class Roles(ast.NodeTransformer):
+        """names by role, not by spelling: the time parameter, the proposal whose `creation_time` is read"""
+
+        def visit_Attribute(self, node: ast.Attribute):
+            if node.attr == "creation_time" and isinstance(node.value, ast.Name) and node.value.id not in params:
+                return ast.copy_location(ast.Name(id="proposal_creation_time", ctx=ast.Load()), node)
+            self.generic_visit(node)
+            return node
+
+        def visit_Name(self, node: ast.Name):
+            if node.id == params[1]:
+                return ast.copy_location(ast.Name(id="loop_time", ctx=ast.Load()), node)
+            return node
+    import copy
+    test = Flatten().visit(Roles().visit(copy.deepcopy(tests[0])))
     out += ["/-- the `if` of `drop_old_proposals`: this proposal is dropped. -/\n"
             "def expired (loop_time : Rat) (proposal_creation_time : Rat) (self__max_proposal_age_sec : Rat) : Prop :=\n"
             f"  {tr.prop(test, env)}\n",
